@@ -170,11 +170,10 @@ def Cnr.inGarbage (c : Cnr) (id : Nat) : Status :=
     | some (_, redundant) => if redundant then .available else .gcMarked
     | none => .available
 
-/-- `objectLocked` -/
+/-- `objectLocked`: some associated LOCK object is unexpired and not removed itself -/
 def Cnr.objectLocked (c : Cnr) (epoch id : Nat) : Bool :=
-  match c.assocTyped epoch id .lock with
-  | some lockId => c.inGarbage lockId == .available
-  | none => false
+  c.recs.any fun r => r.assoc == id && r.typ == .lock && !(epoch > 0 && c.isExpired r.id epoch)
+    && c.inGarbage r.id == .available
 
 /-- `findParent` -/
 def Cnr.findParent (c : Cnr) (id : Nat) : Nat :=
@@ -322,15 +321,54 @@ def Cnr.tombstoneMarks (c : Cnr) (epoch target : Nat) : List (Nat × Bool) × In
     let cur : Cnr := { c with garb := garb }
     let (e, r) := cur.get id false true epoch
     let (inh, pay) :=
-      if e == .ok then
-        (if cur.inGarbage id == .available then inh + 1 else inh,
+      if e == .ok && cur.inGarbage id == .available then
+        (inh + 1,
          match r with
-         | some rec => if rec.typ == .regular then pay - rec.size else pay
+         | some rec => if rec.typ == .regular && rec.phy then pay - rec.size else pay
          | none => pay)
       else (inh, pay)
     (insertGarb (id, false) garb, inh, pay)) (c.garb, 0, 0)
 
-/-- `db.put(tx, obj, nestingLevel, epoch)` on a header chain; returns the new bucket (or `none` when nothing
+/-- The part of `db.put` after the existence check and the parent: type-specific handling
+(`handleLinkObject`, `handleObjectWithAssociation`, `handleRegularObject`), `applyDiff` and
+`PutMetadataForObject`.  `c0` is the bucket before this `put` call (returned unchanged on error), `c1` the
+bucket after the parent was indexed, `e` the error of the existence check. -/
+def putKind (c1 : Cnr) (epoch level : Nat) (h : Hdr) (hasParHdr : Bool) (e : Err) : Option (Cnr × Diff) × Err :=
+  let d0 : Diff := if level == 0 then { payload := h.size } else {}
+  match h.typ with
+  -- the storage-group case assigns nothing to `err`, so a not-found error of the existence check
+  -- (garbage-marked id) is what the stale variable still holds and what `put` returns
+  | .storageGroup => if e == .notFound then (none, .notFound) else (some (c1, d0), .ok)
+  | .link => (some (c1, { d0 with link := d0.link + 1, phy := d0.phy + 1 }), .ok)
+  | .regular =>
+    (some (c1, { d0 with root := if h.hasParent hasParHdr then d0.root else d0.root + 1,
+                         phy := if level == 0 then d0.phy + 1 else d0.phy }), .ok)
+  | .lock =>
+    if h.assoc == 0 then (none, .other)
+    else
+      let tt := c1.typeOf h.assoc
+      if tt.isSome && tt != some .regular then (none, .lockNonRegular)
+      else if c1.status epoch h.assoc == .tombstoned || c1.inGarbage h.assoc == .tombstoned then (none, .alreadyRemoved)
+      else (some (c1, { d0 with lock := d0.lock + 1, phy := d0.phy + 1 }), .ok)
+  | .tombstone =>
+    if h.assoc == 0 then (none, .other)
+    else
+      let tt := c1.typeOf h.assoc
+      if tt == some .tombstone then (none, .other)
+      else if tt == some .lock then (none, .lockRemoval)
+      else if c1.objectLocked epoch h.assoc then (none, .locked)
+      else
+        let m := c1.tombstoneMarks epoch h.assoc
+        (some ({ c1 with garb := m.1 },
+          { d0 with ts := d0.ts + 1, gc := d0.gc + m.2.1, payload := d0.payload + m.2.2, phy := d0.phy + 1 }), .ok)
+
+def putSelf (c0 c1 : Cnr) (epoch level : Nat) (h : Hdr) (hasParHdr : Bool) (e : Err) : Cnr × Diff × Err :=
+  match putKind c1 epoch level h hasParHdr e with
+  | (some (c2, d), _) =>
+    ({ c2 with ctr := c2.ctr.apply d, recs := insertRec (recOf h hasParHdr (level == 0)) c2.recs }, d, .ok)
+  | (none, err) => (c0, {}, err)
+
+/-- `db.put(tx, obj, nestingLevel, epoch)` on a header chain; returns the new bucket (unchanged when nothing
 is written), the counters diff of this level and the error. -/
 def putChain (c : Cnr) (epoch : Nat) : Nat → List Hdr → Cnr × Diff × Err
   | _, [] => (c, {}, .other)
@@ -340,6 +378,8 @@ def putChain (c : Cnr) (epoch : Nat) : Nat → List Hdr → Cnr × Diff × Err
       let (ex, e) := c.exists_ h.id epoch false
       if ex then (c, {}, .ok)
       else if e != .ok && e != .notFound then (c, {}, e)
+      -- indexed already, only not available (garbage-marked, not collected yet): nothing is added or counted
+      else if e == .notFound && (c.typeOf h.id).isSome then (c, {}, .ok)
       else
         -- parent header with a non-zero id is indexed first
         let (c1, perr) : Cnr × Err :=
@@ -353,43 +393,7 @@ def putChain (c : Cnr) (epoch : Nat) : Nat → List Hdr → Cnr × Diff × Err
             else (c, .ok)
           | [] => (c, .ok)
         if perr != .ok then (c, {}, perr)
-        else
-          let hasParHdr := !parents.isEmpty
-          let d0 : Diff := if level == 0 then { payload := h.size } else {}
-          -- type specific handling
-          let res : Option (Cnr × Diff) × Err :=
-            match h.typ with
-            -- the storage-group case assigns nothing to `err`, so a not-found error of the existence check
-            -- (garbage-marked id) is what the stale variable still holds and what `put` returns
-            | .storageGroup => if e == .notFound then (none, .notFound) else (some (c1, d0), .ok)
-            | .link => (some (c1, { d0 with link := d0.link + 1, phy := d0.phy + 1 }), .ok)
-            | .regular =>
-              (some (c1, { d0 with root := if h.hasParent hasParHdr then d0.root else d0.root + 1,
-                                   phy := if level == 0 then d0.phy + 1 else d0.phy }), .ok)
-            | .lock =>
-              if h.assoc == 0 then (none, .other)
-              else
-                let tt := c1.typeOf h.assoc
-                if tt.isSome && tt != some .regular then (none, .lockNonRegular)
-                else if c1.status epoch h.assoc == .tombstoned then (none, .alreadyRemoved)
-                else (some (c1, { d0 with lock := d0.lock + 1, phy := d0.phy + 1 }), .ok)
-            | .tombstone =>
-              if h.assoc == 0 then (none, .other)
-              else
-                let tt := c1.typeOf h.assoc
-                if tt == some .tombstone then (none, .other)
-                else if tt == some .lock then (none, .lockRemoval)
-                else if c1.objectLocked epoch h.assoc then (none, .locked)
-                else
-                  let (garb, inh, pay) := c1.tombstoneMarks epoch h.assoc
-                  (some ({ c1 with garb := garb },
-                    { d0 with ts := d0.ts + 1, gc := d0.gc + inh, payload := d0.payload + pay, phy := d0.phy + 1 }), .ok)
-          match res with
-          | (some (c2, d), _) =>
-            let c3 : Cnr := { c2 with ctr := c2.ctr.apply d,
-                                       recs := insertRec (recOf h hasParHdr (level == 0)) c2.recs }
-            (c3, d, .ok)
-          | (none, e) => (c, {}, e)
+        else putSelf c c1 epoch level h (!parents.isEmpty) e
 
 /-- `DB.Put`: the transaction is rolled back on error -/
 def dbPut (db : DB) (epoch cn : Nat) (chain : List Hdr) : DB × Err :=
@@ -494,41 +498,42 @@ def dbDelete (db : DB) (cn : Nat) (ids : List Nat) : DB :=
 inductive ReviveRes | notRemoved | containerGarbage | garbage | graveyard (tomb : Nat) | error
   deriving DecidableEq, Repr
 
+/-- first step of `ReviveObject`: an object in the graveyard loses its tombstone object -/
+def Cnr.reviveDropTomb (c : Cnr) (id : Nat) (st : Status) : Cnr × ReviveRes :=
+  if st == .tombstoned then
+    match c.assocTyped 0 id .tombstone with
+    | some tomb =>
+      let r := c.deleteMetadata 4 tomb false
+      ({ r.1 with ctr := r.1.ctr.apply r.2.1 }, .graveyard tomb)
+    | none => (c, .error)
+  else (c, .garbage)
+
+/-- counters after a revival: garbage counter − 1; `reviveCounters` restores only the payload of a physical
+object (typed counters were never decremented, a virtual parent's payload was never subtracted) -/
+def Cnr.reviveCtr (c1 : Cnr) (id : Nat) : Counters :=
+  let ctr1 := { c1.ctr with gc := updCounter c1.ctr.gc (-1) }
+  match c1.find? id with
+  | none => ctr1
+  | some r => if r.phy then { ctr1 with payload := updCounter ctr1.payload r.size } else ctr1
+
+/-- `ReviveObject` inside a live bucket -/
+def Cnr.revive (c : Cnr) (id : Nat) : Option Cnr × ReviveRes :=
+  let st := c.inGarbage id
+  if st == .available then (none, .notRemoved)
+  else
+    let p := c.reviveDropTomb id st
+    if p.2 == .error then (none, .error)
+    else (some { p.1 with ctr := p.1.reviveCtr id, garb := p.1.garb.filter (·.1 != id) }, p.2)
+
 /-- `DB.ReviveObject` -/
 def dbRevive (db : DB) (cn id : Nat) : DB × ReviveRes :=
   match getCnr? db cn with
   | none => (db, .notRemoved)
   | some c =>
     if c.gcMark then (db, .containerGarbage)
-    else
-      let st := c.inGarbage id
-      if st == .available then (db, .notRemoved)
-      else
-        -- graveyard: the tombstone object is deleted
-        let (c1, res) : Cnr × ReviveRes :=
-          if st == .tombstoned then
-            match c.assocTyped 0 id .tombstone with
-            | some tomb =>
-              let (ct, d, _) := c.deleteMetadata 4 tomb false
-              ({ ct with ctr := ct.ctr.apply d }, .graveyard tomb)
-            | none => (c, .error)
-          else (c, .garbage)
-        if res == .error then (db, .error)
-        else
-          let ctr1 := { c1.ctr with gc := updCounter c1.ctr.gc (-1) }
-          -- reviveCounters
-          let ctr2 : Counters :=
-            match c1.find? id with
-            | none => ctr1
-            | some r =>
-              let k := { ctr1 with payload := updCounter ctr1.payload r.size }
-              match r.typ with
-              | .regular => { k with phy := if r.phy then k.phy + 1 else k.phy, root := if r.root then k.root + 1 else k.root }
-              | .tombstone => { k with ts := k.ts + 1 }
-              | .lock => { k with lock := k.lock + 1 }
-              | .link => { k with link := k.link + 1 }
-              | .storageGroup => k
-          (setCnr db cn { c1 with ctr := ctr2, garb := c1.garb.filter (·.1 != id) }, res)
+    else match c.revive id with
+      | (some c', res) => (setCnr db cn c', res)
+      | (none, res) => (db, res)
 
 /-! ### iteration views -/
 
@@ -601,5 +606,36 @@ def dbContainerInfo (db : DB) (cn : Nat) : Nat × Nat :=
   match getCnr? db cn with
   | none => (0, 0)
   | some c => if c.gcMark then (0, 0) else (c.ctr.payload, c.ctr.phy - c.ctr.gc)
+
+end NeoFS.Meta
+
+namespace NeoFS.Meta
+
+/-! ### histories -/
+
+inductive Op
+  | setEpoch (e : Nat)
+  | put (cn : Nat) (chain : List Hdr)
+  | mark (cn : Nat) (ids : List Nat) (redundant : Bool)
+  | inhumeCnr (cn : Nat)
+  | deleteCnr (cn : Nat)
+  | delete (cn : Nat) (ids : List Nat)
+  | revive (cn id : Nat)
+
+structure St where
+  db : DB := []
+  epoch : Nat := 0
+
+def step (s : St) : Op → St
+  | .setEpoch e => { s with epoch := e }
+  | .put cn chain => { s with db := (dbPut s.db s.epoch cn chain).1 }
+  | .mark cn ids r => { s with db := dbMarkGarbage s.db s.epoch cn ids r }
+  | .inhumeCnr cn => { s with db := dbInhumeContainer s.db cn }
+  | .deleteCnr cn => { s with db := dbDeleteContainer s.db cn }
+  | .delete cn ids => { s with db := dbDelete s.db cn ids }
+  | .revive cn id => { s with db := (dbRevive s.db cn id).1 }
+
+/-- the state after a history, from the empty metabase -/
+def run (ops : List Op) : St := ops.foldl step {}
 
 end NeoFS.Meta
